@@ -65,6 +65,8 @@ pub struct ShardOut {
     pub samples: Vec<String>,
     pub violations: Vec<(String, String)>, // (replay path, message)
     pub known: Vec<(String, String)>,      // (finding id, message)
+    #[serde(default)]
+    pub infra: Vec<String>,
 }
 
 #[derive(Serialize, Deserialize, Clone, Debug)]
@@ -190,6 +192,13 @@ pub fn run_shard<C: Check>(tier: Tier, seed: u64, shard: u32, nshards: u32, curr
                 }
                 Ok(())
             }
+            Err(v) if v.msg.starts_with("INFRA:") => {
+                let mut o = out.borrow_mut();
+                if o.infra.len() < 20 {
+                    o.infra.push(v.msg.clone());
+                }
+                Ok(())
+            }
             Err(v) => {
                 if let Some(k) = match_known(&known, &v.msg) {
                     if counting {
@@ -300,6 +309,7 @@ pub fn merge(outs: Vec<ShardOut>) -> ShardOut {
         }
         m.violations.extend(o.violations);
         m.known.extend(o.known);
+        m.infra.extend(o.infra);
     }
     m
 }
